@@ -40,7 +40,9 @@ def water_viscosity(T=None, eta20=None, units=None, warn=True):
         warnings.warn("Temperature is outside range (0-100 degC)")
     # equation (5) in the paper says "log" but they seem to mean "log10"
     # when comparing with Table II.
-    return eta20 * 10 ** ((A * (20 - t) - B * (t - 20) ** 2) / (t + C))
+    return eta20 * 10 ** (
+        (A * (20 * K - t) - B / K * (t - 20 * K) ** 2) / (t + C * K)
+    )
 
 
 reference = dict(
